@@ -183,6 +183,9 @@ def to_tk(circuit):
                 i_bit = bits[bit_offset + j]
                 i_qubit = qubits[qubit_offset + j]
                 tk_circ.Measure(i_qubit, i_bit)
+            if box.destructive:
+                qubits = qubits[:qubit_offset]\
+                    + qubits[qubit_offset + box.n_qubits:]
             return bits, qubits
         for j, _ in enumerate(box.dom):
             i_bit, i_qubit = len(tk_circ.bits), qubits[qubit_offset + j]
